@@ -69,6 +69,8 @@ fn spaces(tier: Tier) -> Vec<Space> {
             Space { alpha: "TERN", depth: 3 },
             Space { alpha: "CASE", depth: 2 },
             Space { alpha: "CASE", depth: 3 },
+            Space { alpha: "PAY", depth: 2 },
+            Space { alpha: "PAY", depth: 3 },
             Space { alpha: "QSYM", depth: 3 },
             Space { alpha: "QSYM", depth: 4 },
             Space { alpha: "A1", depth: 2 },
@@ -96,6 +98,8 @@ fn spaces(tier: Tier) -> Vec<Space> {
             Space { alpha: "TERN", depth: 3 },
             Space { alpha: "CASE", depth: 2 },
             Space { alpha: "CASE", depth: 3 },
+            Space { alpha: "PAY", depth: 2 },
+            Space { alpha: "PAY", depth: 3 },
             Space { alpha: "QSYM", depth: 3 },
             Space { alpha: "QSYM", depth: 4 },
             Space { alpha: "T3", depth: 2 },
@@ -336,7 +340,7 @@ impl Prop for Inv {
         let mut out = Exec::default();
         // the analysis variant doubles the cost: it is run for the small, interaction-rich alphabets
         let segname = segs[seg].seg.name.clone();
-        let analysis_too = segname.starts_with("SHARE") || segname.starts_with("SAME") || segname.starts_with("SELFX") || segname.starts_with("CASC") || segname.starts_with("TERN") || segname.starts_with("CASE") || segname.starts_with("MICRO") || segname == "CORE^2" || segname.starts_with("SELF^1") || (tier == Tier::Thorough && (segname == "CORE^3" || segname.starts_with("T3")));
+        let analysis_too = segname.starts_with("SHARE") || segname.starts_with("SAME") || segname.starts_with("SELFX") || segname.starts_with("CASC") || segname.starts_with("TERN") || segname.starts_with("CASE") || segname.starts_with("PAY") || segname.starts_with("MICRO") || segname == "CORE^2" || segname.starts_with("SELF^1") || (tier == Tier::Thorough && (segname == "CORE^3" || segname.starts_with("T3")));
         for (hist, with_analysis) in variants(&ops, flips).into_iter().flat_map(|h| if analysis_too { vec![(h.clone(), false), (h, true)] } else { vec![(h, false)] }) {
             let h2 = hist.clone();
             let r = fresh_thread(move || if with_analysis { run_one::<MinSizeReading>(&h2) } else { run_one::<()>(&h2) });
